@@ -67,6 +67,12 @@ impl<T> Timer<T> {
         self.queue.remove(&timeout).is_some()
     }
 
+    /// Number of scheduled timeouts.
+    #[cfg(feature = "verif")]
+    pub fn len(&self) -> usize {
+        self.queue.len() + usize::from(self.current.is_some())
+    }
+
     fn next_id(&mut self) -> u64 {
         let id = self.next_id;
         self.next_id = self.next_id.wrapping_add(1);
